@@ -13,10 +13,11 @@ Tested (not proved): that the real PIT reads over LeanPG (the MODELLED Postgres,
 regenerated triggers) return exactly these values — workload `meta` of `vrreads`, all four
 feature combinations.
 
-FINDING (real code, confirmed over LeanPG): `DeleteAccountMetadata` does not touch `updated_at`, so
-the history trigger stamps the post-delete revision with the date of the *previous* write; a read at
-`t` between that write and the delete already shows the key deleted
-(`account_meta_delete_backdated_counterexample`).
+FOUND AND REPAIRED (fix 2c0d233, exhibited by workload `meta` on the real code over LeanPG): before
+it `DeleteAccountMetadata` did not touch `updated_at`, so the history trigger stamped the post-delete
+revision with the date of the *previous* write and a read at `t` between that write and the delete
+already showed the key deleted — kept as `account_meta_delete_backdated_counterexample` about the
+explicitly parameterised `DeleteVariant.preFix`.
 -/
 namespace Ledger.C17r
 open Ledger.Base Ledger.Core Ledger.Spec Ledger.Reads
@@ -25,7 +26,7 @@ open Ledger.Base Ledger.Core Ledger.Spec Ledger.Reads
 theorem meta_at_t_disabled_is_current (feat : Features) (l : Ledger) (a : String) (pit : Option Int)
     (h : feat.acctMetaHist = false) :
     accountMetaRead feat l a pit = metaAt l (.account a) none := by
-  unfold accountMetaRead
+  unfold accountMetaRead accountMetaReadV
   cases pit <;> simp [h]
 
 /-- The same for transactions. -/
@@ -44,7 +45,8 @@ theorem meta_no_pit_is_current (feat : Features) (l : Ledger) (a : String) (id :
 theorem meta_at_t_sync_latest_revision (feat : Features) (l : Ledger) (a : String) (t : Int) (r : AcctRow)
     (h : feat.acctMetaHist = true) (hr : acctRowOf l a = some r) :
     accountMetaRead feat l a (some t) = revisionAt r.revisions t := by
-  unfold accountMetaRead
+  unfold accountMetaRead accountMetaReadV
+  unfold acctRowOf at hr
   simp [h, hr]
 
 theorem tx_meta_at_t_sync_latest_revision (feat : Features) (l : Ledger) (id : Nat) (t : Int) (r : Reads.TxRow)
@@ -87,21 +89,23 @@ theorem tx_meta_doc_current (l : Ledger) (id : Nat) : txMetaDoc l id none = meta
   | reverted i d => rfl
   | metaWrite ev => simp [txMetaDocStep, metaStep]
 
-/-- **Counterexample to "a read at time t returns the metadata as it was at t"** for accounts
-    (history SYNC): `k` saved at 10, deleted at 20; the read at 15 already misses `k`, because the
-    delete does not move `updated_at` and its revision is stamped 10. -/
+/-- **Counterexample (code before fix 2c0d233) to "a read at time t returns the metadata as it was
+    at t"** for accounts with history SYNC: `k` saved at 10, deleted at 20; the read at 15 already
+    misses `k`, because the delete did not move `updated_at` and its revision was stamped 10. -/
 theorem account_meta_delete_backdated_counterexample :
     ∃ (l : Ledger) (a : String) (t : Int),
-      accountMetaRead { acctMetaHist := true } l a (some t) ≠ metaAt l (.account a) (some t) :=
+      accountMetaReadV .preFix { acctMetaHist := true } l a (some t) ≠ metaAt l (.account a) (some t) :=
   ⟨{ events := [.metaWrite ⟨.account "a", 10, .save [("k", "v")]⟩, .metaWrite ⟨.account "a", 20, .delete "k"⟩] },
    "a", 15, by decide⟩
 
-/-- What the same journal reads: `{}` at 15 although `k` was only deleted at 20. -/
+/-- The same journal before and after the fix: `{}` at 15 before, `{k: v}` after — equal to the
+    Spec's fold at 15. -/
 example :
     let l : Ledger := { events := [.metaWrite ⟨.account "a", 10, .save [("k", "v")]⟩,
                                     .metaWrite ⟨.account "a", 20, .delete "k"⟩] }
-    (accountMetaRead {} l "a" (some 9), accountMetaRead {} l "a" (some 15), metaAt l (.account "a") (some 15),
-     accountMetaRead {} l "a" (some 20)) = ([], [], [("k", "v")], []) := by decide
+    (accountMetaReadV .preFix {} l "a" (some 15), accountMetaRead {} l "a" (some 15), metaAt l (.account "a") (some 15),
+     accountMetaRead {} l "a" (some 9), accountMetaRead {} l "a" (some 20)) =
+    ([], [("k", "v")], [("k", "v")], [], []) := by decide
 
 /-- Transactions: the delete moves `updated_at`, so the history is faithful. -/
 example :
